@@ -84,6 +84,17 @@ def fault_class(e):
     return type(e).__name__
 
 
+ALLOCATING = {"meas", "meas_inplace", "new", "create_keep", "recv_keep", "recv_keep_fid", "create_keep_fid", "keep_seq", "create_context", "recv_context_seq"}
+STALE_MAKERS = {"free", "keep_seq", "create_context", "recv_context_seq"}
+
+
+def alloc_after_stale(hist):
+    """the two recorded findings (handles that stay active after free / after sequential and context requests) can only make an
+    INSTRUCTION fault once something is allocated -- or, on NV, relocated for a measurement -- after the operation that left the stale handle"""
+    first = next((i for i, h in enumerate(hist) if h[0] in STALE_MAKERS), None)
+    return first is not None and any(h[0] in ALLOCATING for h in hist[first + 1:])
+
+
 def two_qubit_gate_in(hist):
     return any(h[0] == "cnot" for h in hist)
 
@@ -127,7 +138,7 @@ def make_body(spec, falsify=False):
             except (PathAbort, Infeasible):
                 raise
             except Exception as e:  # noqa
-                return [Ob("subroutine_executes_without_fault", False, dict(site0, family=family(hist), fault=fault_class(e), retry=retry_in(hist), two_qubit_gate=two_qubit_gate_in(hist)),
+                return [Ob("subroutine_executes_without_fault", False, dict(site0, family=family(hist), fault=fault_class(e), retry=retry_in(hist), two_qubit_gate=two_qubit_gate_in(hist), alloc_after_stale=alloc_after_stale(hist)),
                            info={"history": [list(h) for h in hist], "error": f"{type(e).__name__}: {str(e)[:200]}"})]
             sdk_ids = sorted(q.qubit_id for q in conn.active_qubits)
             ctrl_ids = sorted(v for v, p in enumerate(ex._qubit_unit_modules[APP]) if p is not None)
